@@ -115,7 +115,7 @@ def p2(prog, rep):
     for g in gen:
         a = [body.root(x) for x in g.args]
         rep.check("construct_checked_txs(" in a[0] and "get_cached_block_deposits(self.state)" in a[1],
-                  "P2", f"generator-operands:{g.line}",
+                  "P2", rep.nth("generator-operands"),
                   f"commitments derived from {[x[:50] for x in a]}", g.where())
     # construct_checked_txs: decodes and verifies every transaction
     b = prog.main_body(S + "app::construct_checked_txs")
@@ -277,7 +277,7 @@ def p5(prog, rep):
     for g in b.calls_to(gen):
         a = [b.root(x) for x in g.args]
         rep.check("prepare_proposal_tx_execution(" in a[0] and
-                  "get_cached_block_deposits(self.state)" in a[1], "P5", f"prepare-operands:{g.line}",
+                  "get_cached_block_deposits(self.state)" in a[1], "P5", rep.nth("prepare-operands"),
                   f"prepare derives commitments from {[x[:50] for x in a]}", g.where())
 
 
@@ -316,7 +316,7 @@ def p6(prog, rep):
                                 infeasible.add((sb, t[3]))
         ok = txx[0].bb not in body.reachable(e.target, removed_edges=infeasible,
                                              removed_blocks=[a.bb for a in adds])
-        rep.check(ok, "P6", f"encoded-item=>charged:{e.line}",
+        rep.check(ok, "P6", rep.nth("encoded-item=>charged"),
                   "an injected data item is encoded (and later included in the proposal) on a path "
                   "that does not charge its size to the CometBFT byte budget before transactions "
                   "are selected: the block can exceed max_tx_bytes by the uncounted bytes",
@@ -340,7 +340,7 @@ def p6(prog, rep):
                          for s in somes)
         elif r.startswith("len(encode(adt:astria_core::sequencerblock::v1::block::DataItem::"):
             ok = True
-        rep.check(ok, "P6", f"charged=len(encoded-item):{a.line}",
+        rep.check(ok, "P6", rep.nth("charged=len(encoded-item)"),
                   f"the CometBFT byte budget is charged with `{detail[:160]}`, which is not the "
                   f"length of the encoded data item that is put into the block", a.where(),
                   detail=detail[:120])
